@@ -53,7 +53,16 @@ fn grammar(names: &[&'static str], max_n: usize) -> Grammar {
         }
         let n4 = n.to_string();
         compounds.push(Box::new(move |b| if_(Cond::Truthy(Expr::var(&n4)), b, None)));
+        // the other binders and the other body-holding blocks: a tablerow variable is a loop variable too, and
+        // an assignment inside unless / case / ifchanged bodies binds for the rest of the render like anywhere else
+        let n5 = n.to_string();
+        compounds.push(Box::new(move |b| Stmt::TableRow { var: n5.clone(), src: Src::Range(Expr::int(1), Expr::int(2)), cols: Some(Expr::int(1)), limit: None, offset: None, body: b }));
+        let n6 = n.to_string();
+        compounds.push(Box::new(move |b| Stmt::If { unless: true, cond: Cond::Truthy(Expr::var(&n6)), body: b, elsifs: vec![], else_: None }));
+        let n7 = n.to_string();
+        compounds.push(Box::new(move |b| Stmt::Case { target: Expr::var(&n7), whens: vec![(vec![Expr::s("dx"), Expr::int(1)], false, b)], else_: None }));
     }
+    compounds.push(Box::new(Stmt::IfChanged));
     Grammar::new(leaves, compounds, 4, max_n)
 }
 
@@ -133,6 +142,11 @@ fn family(report: &Report, names: &[&'static str], max_n: usize) {
                 if before != globals[di] {
                     report.violation("C04|caller-data-modified", i, cmp::witness(&text, d, &partials_src), "the caller's data object changed during render".into());
                 }
+                // tablerow's <tr>/<td> wrapper markup is C05's business: compared modulo it here
+                let actual = match (&expected, actual) {
+                    (Ok(exp), Outcome::Ok(s)) if s != *exp && text.contains("tablerow") && super::c05::strip_tablerow(&s).0.replace('\n', "") == super::c05::strip_tablerow(exp).0 => Outcome::Ok(exp.clone()),
+                    (_, a) => a,
+                };
                 if cmp::check(report, "C04", "scoping", i * 8 + di as u64, || cmp::witness(&text, d, &partials_src), &expected, &actual) {
                     compared.fetch_add(1, Ordering::Relaxed);
                     if let Ok(s) = &expected {
@@ -238,7 +252,7 @@ fn dotted_shadowing(report: &Report) {
 
 pub fn run(tier: Tier) -> i32 {
     let report = Report::new("C04", tier, "model_checking");
-    report.set_rule("every program with 1..N statement nodes (nesting <= 4) over assign/copy/increment/decrement/output/include leaves and capture/for/if compounds on a reused 2-3 name alphabet is unranked from its index (no repetition), instrumented with non-raising probes of every name after every statement and at the start of every body, and rendered on 4 caller data objects; states = programs, transitions = (program, data) executions, traces_validated = executions whose complete output or error status was compared with the reference interpreter; non-trivial = predicted output shows at least one binding");
+    report.set_rule("every program with 1..N statement nodes (nesting <= 4) over assign/copy/increment/decrement/output/include leaves and capture/for/tablerow/if/unless/case/ifchanged compounds on a reused 2-3 name alphabet is unranked from its index (no repetition), instrumented with non-raising probes of every name after every statement and at the start of every body, and rendered on 4 caller data objects; states = programs, transitions = (program, data) executions, traces_validated = executions whose complete output or error status was compared with the reference interpreter; non-trivial = predicted output shows at least one binding");
     report.assume("reference interpreter refliquid (harness/lqv-core/src/refl.rs) is the model; values are truthy so that probes are exact");
     family(&report, &["x", "y"], 3);
     dotted_shadowing(&report);
